@@ -259,13 +259,14 @@ def over(e1, e2):
 class Pure(object):
     """names_pure: no memo (exponential on diamonds; use only on small graphs)."""
 
-    def __init__(self, g):
+    def __init__(self, g, limit=2000000):
         self.g = g
         self.steps = 0
+        self.limit = limit
 
     def names(self, f, R):
         self.steps += 1
-        if self.steps > 2000000:
+        if self.steps > self.limit:
             raise RuntimeError('pure evaluation too large')
         return over(own_env(self.g, f), self.parent_names(f, R))
 
